@@ -179,6 +179,10 @@ type VC struct {
 	usedAssumptions map[string]bool
 	maxPaths int
 	noDefine int
+	modularWritten map[*Cell]bool
+	keepRefsOnHavoc int
+	writePaths map[*Cell]map[string][]PathElem
+	pendingSlotContent Term
 	curCase string
 	defCache map[string]string
 	entryCache map[*ssa.Package]*State
@@ -757,6 +761,19 @@ func (vc *VC) getPath(v Val, path []PathElem) Val {
 				panic("getPath: index into non-array term " + x.E)
 			}
 			v = Select(x, *pe.Idx)
+		case SliceArr:
+			// [idx] then marker -2: the content array of that slot
+			if pe.Idx != nil {
+				v = slotRef{sa: x, idx: *pe.Idx}
+			} else {
+				panic("getPath: bad path into slice-of-slices")
+			}
+		case slotRef:
+			if pe.Field == -2 {
+				v = Select(x.sa.Data, x.idx)
+			} else {
+				panic("getPath: bad path into slice-of-slices slot")
+			}
 		default:
 			panic(fmt.Sprintf("getPath: cannot descend into %T", v))
 		}
@@ -825,6 +842,29 @@ func (vc *VC) setPath(v Val, path []PathElem, nv Val) Val {
 			panic("setPath: nested path under array term")
 		}
 		return Store(x, *pe.Idx, nv.(Term))
+	case SliceArr:
+		if pe.Idx == nil {
+			panic("setPath: bad path into slice-of-slices")
+		}
+		i := *pe.Idx
+		if len(path) == 1 {
+			sv, ok := nv.(SliceVal)
+			if !ok {
+				panic(execError{"store of a non-slice into a slice-of-slices"})
+			}
+			n := x
+			n.IsNil = Store(x.IsNil, i, sv.IsNil)
+			n.Len = Store(x.Len, i, sv.Len)
+			n.Data = Store(x.Data, i, vc.pendingSlotContent)
+			return n
+		}
+		if len(path) == 3 && path[1].Field == -2 && path[2].Idx != nil {
+			// write one byte of a slot
+			n := x
+			n.Data = Store(x.Data, i, Store(Select(x.Data, i), *path[2].Idx, nv.(Term)))
+			return n
+		}
+		panic("setPath: unsupported path into slice-of-slices")
 	}
 	panic(fmt.Sprintf("setPath: cannot descend into %T", v))
 }
@@ -837,7 +877,31 @@ func (vc *VC) load(st *State, p PtrVal) Val {
 	if !ok {
 		panic(execError{"load from unknown cell " + p.Cell.Name})
 	}
+	// element of a slice-of-slices backing store: build the element's slice header
+	for k := 0; k <= len(p.Path); k++ {
+		pv := vc.getPathSafe(v, p.Path[:k])
+		if sa, ok := pv.(SliceArr); ok && k < len(p.Path) && p.Path[k].Idx != nil && k == len(p.Path)-1 {
+			i := *p.Path[k].Idx
+			base := PtrVal{Cell: p.Cell, Path: append(append([]PathElem(nil), p.Path...), PathElem{Field: -2})}
+			ln := Select(sa.Len, i)
+			ln.Signed = true
+			return SliceVal{Base: base, Off: vc.idx(0), Len: ln, Cap: ln, IsNil: Select(sa.IsNil, i)}
+		}
+		if !ok {
+			break
+		}
+	}
 	return vc.getPath(v, p.Path)
+}
+
+// getPathSafe is getPath that stops (returning nil) where the path cannot be followed.
+func (vc *VC) getPathSafe(v Val, path []PathElem) (r Val) {
+	defer func() {
+		if recover() != nil {
+			r = nil
+		}
+	}()
+	return vc.getPath(v, path)
 }
 
 func (vc *VC) store(st *State, p PtrVal, nv Val) {
@@ -848,16 +912,46 @@ func (vc *VC) store(st *State, p PtrVal, nv Val) {
 	if !ok && len(p.Path) > 0 {
 		panic(execError{"store to unknown cell " + p.Cell.Name})
 	}
+	if sv, isSlice := nv.(SliceVal); isSlice && len(p.Path) > 0 {
+		if _, isSA := vc.getPathSafe(old, p.Path[:len(p.Path)-1]).(SliceArr); isSA {
+			vc.pendingSlotContent = vc.sliceContentArray(st, sv)
+		}
+	}
 	st.mem[p.Cell] = vc.setPath(old, p.Path, nv)
 	if p.Cell.Kind != "local" {
 		st.extWrites++
 	}
 	if vc.writeLog != nil {
 		vc.writeLog[p.Cell] = true
+		vc.logWritePath(p)
 	}
 	if st.written != nil {
 		st.written[p.Cell] = true
 	}
+}
+
+// logWritePath records which struct-field path of a cell was written (up to the first
+// element index), so that loop havoc can leave untouched fields (e.g. a reader interface
+// stored next to a flag) alone.
+func (vc *VC) logWritePath(p PtrVal) {
+	if vc.writePaths == nil {
+		vc.writePaths = map[*Cell]map[string][]PathElem{}
+	}
+	var fields []PathElem
+	key := ""
+	for _, pe := range p.Path {
+		if pe.Idx != nil || pe.Field < 0 {
+			break
+		}
+		fields = append(fields, pe)
+		key += fmt.Sprintf(".%d", pe.Field)
+	}
+	m := vc.writePaths[p.Cell]
+	if m == nil {
+		m = map[string][]PathElem{}
+		vc.writePaths[p.Cell] = m
+	}
+	m[key] = fields
 }
 
 type execError struct{ msg string }
@@ -1313,4 +1407,31 @@ func sortedKeys(m map[string]bool) []string {
 	}
 	sort.Strings(ks)
 	return ks
+}
+
+
+type slotRef struct {
+	sa  SliceArr
+	idx Term
+}
+
+// sliceContentArray returns an array A with A[k] = content of slice element k (k < len).
+func (vc *VC) sliceContentArray(st *State, sv SliceVal) Term {
+	is := vc.intSort(64)
+	if sv.Base.Cell == nil {
+		return ConstArray(ArrSort(is, vc.byteSort()), vc.zeroByte())
+	}
+	src, ok := vc.load(st, sv.Base).(Term)
+	if !ok || src.S.K != KArr {
+		panic(execError{"slice-of-slices element over a non-array backing store"})
+	}
+	if sv.Off.C != nil && sv.Off.C.Sign() == 0 {
+		return src
+	}
+	a := vc.freshTerm("slotcontent", src.S)
+	vc.nfresh++
+	q := Term{S: is, E: fmt.Sprintf("k!q%d", vc.nfresh), Signed: true}
+	body := Eq(Select(a, q), Select(src, vc.iAdd(sv.Off, q)))
+	st.Fact(Term{S: SBool, E: fmt.Sprintf("(forall ((%s %s)) (! %s :pattern ((select %s %s))))", q.E, is.String(), body.E, a.E, q.E)})
+	return a
 }
